@@ -1,6 +1,6 @@
 (* C19 - command identifiers, field layouts and enum values stay the NCP protocol's. *)
 From Coq Require Import NArith List String Bool.
-From ZB Require Import Wire.Wty Cmd.Schema Cmd.Command Cmd.Pinned gen.GenSchemas gen.GenEnums pinned.PinnedSchemas pinned.PinnedEnums.
+From ZB Require Import Wire.Wty Cmd.Schema Cmd.Command Cmd.Pinned gen.GenSchemas gen.GenEnums pinned.PinnedSchemas pinned.PinnedEnums Cmd.Command Cmd.FromBody.
 Import ListNotations.
 Open Scope N_scope.
 
@@ -34,3 +34,17 @@ Theorem C19_encoding_is_pinned_for_all_assignments : forall i a,
   enc_params (c_params (nth i pinned_schemas (nth 0 pinned_schemas (nth 0 pinned_schemas {| c_name := ""; c_header := 0; c_blocking := false; c_registered := false; c_params := [] |})))) a.
 Proof. exact encoding_is_pinned. Qed.
 Print Assumptions C19_encoding_is_pinned_for_all_assignments.
+
+(* "command headers identify command types one-to-one", on the decoding side: a frame is accepted only by the class
+   whose header it carries (the request class never accepts the response of the same id, nor the other way round),
+   and among the classes of the tree at most one accepts any given frame *)
+Theorem C19_frame_accepted_only_by_its_own_class : forall c hdr data,
+  from_frame c hdr data <> Reject -> hdr = c_header c.
+Proof. exact from_frame_only_for_own_header. Qed.
+Print Assumptions C19_frame_accepted_only_by_its_own_class.
+
+Theorem C19_at_most_one_class_of_the_tree_accepts_a_frame : forall c1 c2 hdr d1 d2,
+  In c1 schemas -> In c2 schemas ->
+  from_frame c1 hdr d1 <> Reject -> from_frame c2 hdr d2 <> Reject -> c1 = c2.
+Proof. intros c1 c2 hdr d1 d2. apply at_most_one_class_accepts. exact headers_unique. Qed.
+Print Assumptions C19_at_most_one_class_of_the_tree_accepts_a_frame.
